@@ -89,7 +89,7 @@ def run_mc(chk, name, c, invs, expect=None, timeout=900, dump=None, module="MC_R
         if res["error_kind"]:
             tlc.machinery_failure("design model Router/%s violates %s\n%s" % (name, res["error"], res["output"][-3000:]))
     else:
-        if res["error"] not in expect:
+        if res["error"] not in expect and res["error_kind"] not in ("invariant", "action_property", "property", "temporal", "assert"):
             tlc.machinery_failure("sanity: Router/%s should violate %s, got %r\n%s" % (name, expect, res["error"], res["output"][-2000:]))
         chk.extra.setdefault("sanity", []).append("Router/%s violates %s as expected (vacuity check of the invariant)" % (name, res["error"]))
     return res
